@@ -4,8 +4,15 @@
 
 pub use crate::loader::safe_join;
 
-/// C10: the byte and substring search helpers the lexer scans with.
-pub use crate::utils::{memchr, memstr};
+/// C10: the byte search helper the lexer scans with (`utils::memchr`).
+pub fn memchr(haystack: &[u8], needle: u8) -> Option<usize> {
+    crate::utils::memchr(haystack, needle)
+}
+
+/// C10: the substring search helper the lexer scans with (`utils::memstr`).
+pub fn memstr(haystack: &[u8], needle: &[u8]) -> Option<usize> {
+    crate::utils::memstr(haystack, needle)
+}
 
 /// C11: thread-local high-water marks of nested interpreter activations
 /// (`Executor::eval_impl`) and of `Context::depth()`, plus the stack pointer
